@@ -234,7 +234,7 @@ pub fn run(ctx: &Ctx) -> usize {
 		violations += 1;
 	}
 	let depth = ctx.n(6, 12);
-	if run_dna(ctx, "dna", ctx.n(5000, 200_000), ctx.n(3072, 8192), |dna, counting| {
+	if run_dna(ctx, "dna", ctx.n(20_000, 1_000_000), ctx.n(3072, 8192), |dna, counting| {
 		let (t, c) = gen_tree(dna, depth);
 		check(ctx, &t, c, "dna", counting)
 	})
